@@ -71,10 +71,13 @@ package cedar
 //@   requires p != nil && p.ast != nil
 //@   ensures p.ast != nil && p.ast.Position.Filename == fileName
 //@ func (PolicyList) UnmarshalCedar
+//@   props C20
 //@   modifies p
 //@   results err
-//@   trusted
 //@   ensures err == nil ==> (forall i int :: (0 <= i && i < len(*p)) ==> ((*p)[i] != nil && (*p)[i].ast != nil))
+//@   loop 1
+//@     invariant forall i int :: (0 <= i && i < len(policySlice)) ==> (policySlice[i] != nil && policySlice[i].ast != nil)
+//@     invariant forall i int :: (0 <= i && i < len(res)) ==> res[i] != nil
 //@ func NewPolicyListFromBytes
 //@   props C20
 //@   pure
